@@ -22,3 +22,6 @@ def run(chk):
     F.rule_memory_copy(chk, chk.repo, "C05.8")
     X.rule_metadata_keyed_by_own_query(chk, "C05.9")
     X.rule_memory_per_key_locality(chk, "C05.10")
+    X.rule_state_clone_deep(chk, "C05.11")
+    from .c10 import rule_type_copy
+    rule_type_copy(chk, "C05.12")
